@@ -746,6 +746,61 @@ pub fn longrun_ops(cfg: &Cfg, pattern: &str, n: usize) -> Vec<Op> {
             ops.push(Op::Sync);
             return ops.into_iter().filter(|o| s || !matches!(o, Op::Sync)).collect();
         }
+        // weigher + ttl + capacity in the regime where every call first runs the pending
+        // maintenance: the size eviction after a growing update meets the node of a key
+        // that its own invalidate() has just taken out of the map (Remove op not queued
+        // yet); later the oldest entry reaches its deadline while younger ones are alive
+        "worotate" => {
+            ops.push(Op::Ins(0, 2));
+            ops.push(Op::Adv(1));
+            ops.push(Op::Ins(1, 3));
+            ops.push(Op::Adv(1));
+            ops.push(Op::Ins(2, 2));
+            ops.push(Op::Adv(1));
+            ops.push(Op::Ins(3, 2));
+            ops.push(Op::Get(1));
+            ops.push(Op::Get(0));
+            ops.push(Op::Adv(1));
+            ops.push(Op::Ins(3, 6));
+            ops.push(Op::Inv(2));
+            ops.push(Op::Sync);
+            ops.push(Op::Iter);
+            ops.push(Op::Adv((n as u8).saturating_sub(4)));
+            ops.push(Op::Con(0));
+            ops.push(Op::Con(3));
+            ops.push(Op::Sync);
+            ops.push(Op::Iter);
+            ops.push(Op::Sync);
+            return ops;
+        }
+        // a REJECTED newcomer (never looked up, weight 2) whose victim walk passes a live
+        // victim and then leftovers of invalidated keys: the leftovers go to the back, the
+        // live residents keep their order (checked by M-pass, and by what is evicted next)
+        "staleskips-rej" => {
+            // (n - 3 residents: the key universe of a long history is 0..=n)
+            let n = n - 3;
+            for i in 0..n {
+                ops.push(Op::Ins(i as u8, 1));
+            }
+            ops.push(Op::Sync);
+            ops.push(Op::Ins(n as u8, 2));
+            ops.push(Op::Inv(1));
+            ops.push(Op::Inv(2));
+            ops.push(Op::Sync);
+            ops.push(Op::Iter);
+            // the next newcomers are popular and take the LRU residents one by one
+            for c in 0..3usize {
+                let k = (n + 1 + c) as u8;
+                for _ in 0..3 {
+                    ops.push(Op::Get(k));
+                }
+                ops.push(Op::Sync);
+                ops.push(Op::Ins(k, 1));
+                ops.push(Op::Sync);
+                ops.push(Op::Iter);
+            }
+            return ops.into_iter().filter(|o| s || !matches!(o, Op::Sync)).collect();
+        }
         // warm newcomers (looked up 7 times) against a hot resident set, many distinct
         // newcomer keys: every admission decision goes through the popularity comparison
         // with estimates well above 5
